@@ -167,18 +167,19 @@ def check_case(ctx, case):
             d, h = (10 ** rng.uniform(-0.4, 0.4, 2)).tolist()
             whole = {"cls": "Cylinder", "dimension": [d, h], "polarization": pol, "position": P, "orientation": Q}
             if ident == "cylinder_full_segment":
-                p1 = float(rng.uniform(-360, 0))
+                p1 = float(rng.uniform(-540, 180))
                 parts = [{"cls": "CylinderSegment", "dimension": [0.0, d / 2, h, p1, p1 + 360], "polarization": pol,
                           "position": P, "orientation": Q}]
                 cuts = None
             else:
-                parts, cuts = segment_partition(rng, 0.0, d / 2, h, float(rng.uniform(-180, 0)), 360.0, pol, P, Q)
+                # the first cut anywhere: parts then straddle 0, +-360 degrees in their own description
+                parts, cuts = segment_partition(rng, 0.0, d / 2, h, float(rng.uniform(-540, 360)), 360.0, pol, P, Q)
             obs = observers(rng, whole, nobs, cuts)
         elif ident == "segment_subsegments":
             r1 = float(rng.choice([0.0, 10 ** rng.uniform(-0.7, -0.1)]))
             r2 = r1 + float(10 ** rng.uniform(-0.5, 0.2))
             h = float(10 ** rng.uniform(-0.4, 0.4))
-            p1 = float(rng.uniform(-300, 200))
+            p1 = float(rng.uniform(-500, 340))
             dp = float(rng.uniform(30, 330))
             whole = {"cls": "CylinderSegment", "dimension": [r1, r2, h, p1, p1 + dp], "polarization": pol, "position": P, "orientation": Q}
             parts, cuts = segment_partition(rng, r1, r2, h, p1, dp, pol, P, Q)
